@@ -83,6 +83,7 @@ func cmdVerify(args []string) int {
 	tags := fs.String("tags", "verif", "build tags")
 	verbose := fs.Bool("v", false, "list every obligation")
 	dump := fs.Bool("dump", false, "print the generated commands")
+	showModel := fs.Bool("model", false, "print parameter values of counterexample models")
 	fs.Parse(args)
 	re := regexp.MustCompile(fs.Arg(0))
 	P, err := Load(RepoDir, *tags)
@@ -152,6 +153,11 @@ func cmdVerify(args []string) int {
 			} else {
 				bad++
 				fmt.Printf("  FAIL %-60s %s [%s] %s\n", o.Name, o.Result, o.Solver, o.Pos)
+				if *showModel && o.Model != "" {
+					for _, kv := range ModelValues(o.Model, "a_") {
+						fmt.Printf("         %s = %s\n", kv[0], kv[1])
+					}
+				}
 			}
 		}
 		fmt.Printf("%s: %d/%d discharged (mode %s, %d loops)\n", r.Key, ok, n, r.Mode, r.Loops)
@@ -166,3 +172,33 @@ func cmdVerify(args []string) int {
 	return 0
 }
 
+
+
+// ModelValues extracts (name, value) pairs of the constants whose name starts with prefix from a solver model.
+func ModelValues(model, prefix string) [][2]string {
+	var out [][2]string
+	lines := strings.Split(model, "\n")
+	for i := 0; i < len(lines); i++ {
+		ln := strings.TrimSpace(lines[i])
+		if !strings.HasPrefix(ln, "(define-fun "+prefix) {
+			continue
+		}
+		f := strings.Fields(ln)
+		name := f[1]
+		val := ""
+		// value is on the same or the next line(s) until parentheses balance
+		rest := strings.TrimSpace(strings.SplitN(ln, ")", 2)[1])
+		depth := strings.Count(ln, "(") - strings.Count(ln, ")")
+		val = rest
+		for depth > 0 && i+1 < len(lines) {
+			i++
+			l2 := strings.TrimSpace(lines[i])
+			depth += strings.Count(l2, "(") - strings.Count(l2, ")")
+			val += " " + l2
+		}
+		val = strings.TrimSpace(val)
+		// strip the sort and trailing paren
+		out = append(out, [2]string{name, trunc(val, 200)})
+	}
+	return out
+}
